@@ -2013,6 +2013,15 @@ class TLSConnection(TLSRecordLayer):
 
             if cipherSuite in CipherSuite.dhAllSuites:
                 self.dhGroupSize = numBits(serverKeyExchange.dh_p)
+                # the size of the group is subject to the same policy as
+                # other asymmetric keys (and bounds the work we do with it)
+                if not settings.minKeySize <= self.dhGroupSize <= \
+                        settings.maxKeySize:
+                    for result in self._sendError(
+                            AlertDescription.insufficient_security,
+                            "DH group size {0} outside of the accepted "
+                            "range".format(self.dhGroupSize)):
+                        yield result
             if cipherSuite in CipherSuite.ecdhAllSuites:
                 self.ecdhCurve = serverKeyExchange.named_curve
 
